@@ -71,7 +71,14 @@ class C04(Prop):
     id = "C04"
     rule = ("random trees (1-6 nodes), independent child orders and leg shuffles for ket / bra / operator networks, complex integer-valued tensors "
             "(exact arithmetic) and float tensors; kinds: scalar product of two states, norm (canonical and not), TTNO expectation value, tensor-product "
-            "expectation value on 0..N sites with non-Hermitian factors (with and without the centre shortcut), TTNO.as_matrix; non-trivial = at least 2 nodes")
+            "expectation value on 0..N sites with non-Hermitian factors (with and without the centre shortcut), TTNO.as_matrix; non-trivial = at least 2 nodes; "
+            "[str-C04] HISTORIES on one object (oracle only, dense reference recomputed from the current tensors at every probe): `hist` = one TTNS through 2-6 random "
+            "steps out of canonical_form (REDUCED / FULL, same or another centre) / move_orthogonalization_center / ensure_orth_center / edits (apply_operator with "
+            "non-unitary factors on 1-2 sites, replace_tensor, tensors[id] = new, in-place scaling) at, on and off the centre path, with norm(), scalar_product() with and "
+            "without the centre shortcut, the single-site shortcut at the centre and a tensor product on 0-2 sites probed wherever the library has (re)established "
+            "the gauge (centre None, or every edit since the last canonical_form was at the recorded centre); `ohist` = one TTNO through 2-4 rounds of as_matrix() + "
+            "TTNO expectation value, between rounds a tensor gets new values with unchanged shapes (replace_tensor / assignment / in-place scaling / index assignment), "
+            "the caller overwrites the matrix it was handed, or continues with a deepcopy of the operator")
     clauses = [
         ("F", "for all trees and independent child orders of ket / bra / operator (wf_two / wf_three): contract_two_ttns and expectation_value succeed and return the closed "
               "network: no open axis, atoms = all atoms, every edge wire bound, glued pairs exactly (ket leg n, bra leg n) resp. (ket leg n, operator input n) and "
@@ -111,6 +118,11 @@ class C04(Prop):
         ("I", "per explored instance: the hypothesis checkers two_ok / three_ok of those theorems and, as a cross-check, the closed-diagram summary, by vm_compute; "
               "the implementation's number equals the value of that diagram (exact arithmetic on Gaussian-integer tensors)"),
         ("V", "norm() total on every state, gauge independence, the shortcuts on canonical states against <psi|O|psi>: dense oracle"),
+        # [str-C04]
+        ("V", "histories: the same equalities at every probe of a call sequence on ONE state object (canonical_form / move / ensure / edits of tensors, re-canonicalisation "
+              "after edits off the centre) and of repeated as_matrix() / expectation_value calls on ONE operator object whose tensors change value but not shape: dense "
+              "oracle on the current tensors; no model tie (the theorems are per call: C04_canonical_form_shortcuts holds for EVERY wfs input state, whatever its centre attribute)"),
+        # [/str-C04]
     ]
     trusted_base = ["NumPy tensordot/transpose/reshape implement the diagram operations (validated exactly on integer tensors)",
                     "kernel contract of the semantic bridge (qr_contracts / iso_atom, premises of the O theorems): the Q factor of every recorded QR call is an isometry "
@@ -122,8 +134,15 @@ class C04(Prop):
         rng = ctx.rng(stream)
         n = ctx.scale(160, 1600) * budget_scale
         kinds = ["two", "two", "ttno", "ttno", "tp", "tp", "norm", "asmat"]
-        return [{"seed": rng.randrange(10 ** 9), "nnodes": rng.choice([1, 2, 2, 3, 3, 4, 4, 5, 6]), "kind": kinds[j % len(kinds)],
-                 "ints": j % 5 != 0, "share": (j % 7 == 3)} for j in range(n)]
+        cases = [{"seed": rng.randrange(10 ** 9), "nnodes": rng.choice([1, 2, 2, 3, 3, 4, 4, 5, 6]), "kind": kinds[j % len(kinds)],
+                  "ints": j % 5 != 0, "share": (j % 7 == 3)} for j in range(n)]
+        # [str-C04] histories on one object (drawn AFTER the single-call cases, which therefore stay what they were)
+        nh = ctx.scale(48, 480) * budget_scale
+        hk = ["hist", "hist", "ohist"]
+        cases += [{"seed": rng.randrange(10 ** 9), "nnodes": rng.choice([1, 2, 3, 3, 4, 4, 5, 6, 7]), "kind": hk[j % len(hk)],
+                   "ints": j % 4 == 1, "share": False} for j in range(nh)]
+        # [/str-C04]
+        return cases
 
     def nontrivial(self, case):
         return case["nnodes"] >= 2
@@ -163,6 +182,14 @@ class C04(Prop):
             bond = {i: 2 for i in range(1, n)}
             dims = {f"n{i}": 2 for i in range(n)}
         ket, kops = self._build(rng, parents, [[d] for d in phys], bond, TTNS, case["ints"], case["seed"], share=share)
+        # [str-C04]
+        if kind == "hist":
+            return self._run_hist(case, rng, ket.ttn, ids, dims)
+        if kind == "ohist":
+            bond3 = {i: rng.choice([1, 2, 2]) for i in range(1, n)}
+            op, _ = self._build(rng, parents, [[d, d] for d in phys], bond3, TTNO, case["ints"], case["seed"] + 2)
+            return self._run_ohist(case, rng, ket.ttn, op.ttn, ids)
+        # [/str-C04]
         psi = util.dense_vec(copy.deepcopy(ket.ttn), ids)
         ob = {"kind": kind, "kops": kops, "katoms": ket.atoms}
         if kind == "two":
@@ -261,6 +288,149 @@ class C04(Prop):
             ob["matrix"] = m
             # [/ext-C04W]
         return ob
+
+    # [str-C04] ------------------------------------------------------------------------------------
+    # Set to True once the lead has decided about the finding "an edit off the recorded centre leaves
+    # orthogonality_center_id behind" (then the state is probed after EVERY step of a history).
+    # apply_operator / absorb_into_open_legs off the centre forget the centre (repo fix defae9f) and are always probed;
+    # replace_tensor off the centre still keeps the record (known finding): probed and attributed to STALE_ID;
+    # raw dictionary assignment and in-place numpy writes bypass the API and are only probed after the next canonical_form
+    PROBE_STALE_CENTRE = True
+    STALE_ID = "C04-stale-centre-after-replace-tensor"
+
+    @staticmethod
+    def _crand(nprs, shape, ints):
+        if ints:
+            return (nprs.randint(-2, 3, size=shape) + 1j * nprs.randint(-2, 3, size=shape)).astype(complex)
+        return nprs.standard_normal(shape) + 1j * nprs.standard_normal(shape)
+
+    def _probe(self, ttn, ids, dims, rng, nprs, label, stale, out):
+        """every observable of the property on the LIVE object against the dense vector of its current tensors"""
+        psi = util.dense_vec(copy.deepcopy(ttn), ids)
+        nn = complex(np.vdot(psi, psi))
+        centre = ttn.orthogonality_center_id
+
+        def rec(q, value, ref):
+            out.append({"step": label, "q": q, "value": value, "dense": ref, "stale": stale, "centre": centre})
+        try:
+            rec("norm()", complex(ttn.norm()), complex(np.sqrt(nn.real)))
+            rec("scalar_product()", complex(ttn.scalar_product()), nn)
+            rec("scalar_product(use_orthogonal_center=False)", complex(ttn.scalar_product(use_orthogonal_center=False)), nn)
+            site = centre if centre is not None else rng.choice(ids)
+            a = nprs.standard_normal((dims[site],) * 2) + 1j * nprs.standard_normal((dims[site],) * 2)
+            ref = complex(np.vdot(psi, util.dense_tp({site: a}, ids, dims) @ psi))
+            rec(f"single_site_operator_expectation_value({site})", complex(ttn.single_site_operator_expectation_value(site, a)), ref)
+            rec(f"operator_expectation_value(TensorProduct on {site})", complex(ttn.operator_expectation_value(TensorProduct({site: a}))), ref)
+            sites = rng.sample(ids, rng.randrange(0, min(2, len(ids)) + 1))
+            mats = {s_: nprs.standard_normal((dims[s_],) * 2) + 1j * nprs.standard_normal((dims[s_],) * 2) for s_ in sites}
+            rec(f"operator_expectation_value(TensorProduct on {sites})", complex(ttn.operator_expectation_value(TensorProduct(dict(mats)))),
+                complex(np.vdot(psi, util.dense_tp(mats, ids, dims) @ psi)))
+        except Exception as e:  # noqa
+            out.append({"step": label, "q": "raised", "error": f"{type(e).__name__}: {e}", "stale": stale, "centre": centre})
+
+    def _run_hist(self, case, rng, ttn, ids, dims):
+        """one TTNS object through a random call sequence; probed wherever the library has (re)established the gauge"""
+        nprs = np.random.RandomState((case["seed"] + 7) % (2 ** 31))
+        ints = case["ints"]
+        probes, trace = [], []
+        dirty = False       # a tensor OFF the recorded centre was edited since the last canonical_form
+        dirty_how = set()   # ... and through which entry points
+        self._probe(ttn, ids, dims, rng, nprs, "initial", False, probes)
+        nsteps = rng.randrange(2, 7)
+        for j in range(nsteps):
+            centre = ttn.orthogonality_center_id
+            menu = ["canon", "canon", "edit", "edit", "edit"] + (["move", "ensure", "canon_same"] if centre is not None else ["ensure"])
+            if dirty:
+                menu += ["canon", "canon_same"]
+            what = rng.choice(menu)
+            if what in ("canon", "canon_same"):
+                node = centre if (what == "canon_same" and centre is not None) else rng.choice(ids)
+                mode = rng.choice(["reduced", "reduced", "reduced", "full"])
+                ttn.canonical_form(node, mode=wmodel.MODES[mode])
+                dirty = False
+                dirty_how = set()
+                trace.append(["canonical_form", node, mode])
+            elif what == "move":
+                node = rng.choice(ids)
+                ttn.move_orthogonalization_center(node)
+                trace.append(["move_orthogonalization_center", node])
+            elif what == "ensure":
+                node = rng.choice(ids)
+                ttn.ensure_orth_center(node)
+                trace.append(["ensure_orth_center", node])
+            else:
+                how = rng.choice(["apply", "apply", "replace", "assign", "scale"])
+                if how == "apply":
+                    sites = rng.sample(ids, rng.randrange(1, min(2, len(ids)) + 1))
+                    # far from unitary: the gauge of the touched nodes is destroyed
+                    mats = {s_: self._crand(nprs, (dims[s_],) * 2, ints) + 2 * np.eye(dims[s_]) for s_ in sites}
+                    ttn.apply_operator(TensorProduct(mats))
+                else:
+                    sites = [rng.choice(ids)]
+                    shape = ttn.tensors[sites[0]].shape
+                    if how == "replace":
+                        ttn.replace_tensor(sites[0], self._crand(nprs, shape, ints))
+                    elif how == "assign":
+                        ttn.tensors[sites[0]] = self._crand(nprs, shape, ints)
+                    else:
+                        ttn.tensors[sites[0]] *= (1.5 - 0.5j)
+                if centre is not None and any(s_ != centre for s_ in sites):
+                    dirty = True
+                    dirty_how.add(how)
+                trace.append([how, sites])
+            stale = dirty and ttn.orthogonality_center_id is not None
+            if not stale or (self.PROBE_STALE_CENTRE and dirty_how <= {"replace", "apply"}):
+                self._probe(ttn, ids, dims, rng, nprs, f"after step {j} {trace[-1]}", stale, probes)
+        return {"kind": "hist", "trace": trace, "probes": probes}
+
+    def _run_ohist(self, case, rng, ket, ttno, ids):
+        """one TTNO object: as_matrix() / expectation value, new tensor VALUES with unchanged shapes, again"""
+        nprs = np.random.RandomState((case["seed"] + 11) % (2 ** 31))
+        ints = case["ints"]
+        psi = util.dense_vec(copy.deepcopy(ket), ids)
+        probes, trace = [], []
+        rounds = rng.randrange(2, 5)
+        for r in range(rounds):
+            label = f"round {r} (after {trace[-1] if trace else 'construction'})"
+            try:
+                m, order = ttno.as_matrix()
+                full = util.dense_ttn(copy.deepcopy(ttno), order)     # axes out0,in0,out1,in1,... in `order`
+                nn = len(order)
+                ref = full.transpose([2 * j for j in range(nn)] + [2 * j + 1 for j in range(nn)])
+                rows = int(np.prod(ref.shape[:nn]))
+                ref = ref.reshape(rows, rows)
+                ok = bool(m.shape == ref.shape and np.allclose(m, ref, rtol=1e-9, atol=1e-9))
+                probes.append({"step": label, "q": "as_matrix()", "ok": ok, "order": order, "preorder": self._preorder(ttno),
+                               "maxdev": float(np.max(np.abs(m - ref))) if m.shape == ref.shape else None})
+                O = util.dense_ttno(copy.deepcopy(ttno), ids)
+                probes.append({"step": label, "q": "operator_expectation_value(TTNO)", "value": complex(ket.operator_expectation_value(ttno)),
+                               "dense": complex(np.vdot(psi, O @ psi))})
+                if rng.random() < 0.5:
+                    # the caller goes on computing with the matrix it was handed
+                    m *= 0
+                    trace.append(["caller overwrites the returned matrix in place"])
+            except Exception as e:  # noqa
+                probes.append({"step": label, "q": "raised", "error": f"{type(e).__name__}: {e}"})
+                break
+            how = rng.choice(["replace", "assign", "scale", "index", "copy+replace", "none"])
+            node = rng.choice(ids)
+            if how == "copy+replace":
+                ttno = copy.deepcopy(ttno)
+            shape = ttno.tensors[node].shape
+            if how in ("replace", "copy+replace"):
+                ttno.replace_tensor(node, self._crand(nprs, shape, ints))
+            elif how == "assign":
+                ttno.tensors[node] = self._crand(nprs, shape, ints)
+            elif how == "scale":
+                ttno.tensors[node] *= (0.5j)
+            elif how == "index":
+                # what TimeDependentTTNO.update does: entries of a node tensor are overwritten in place
+                t = ttno.tensors[node]
+                t[(0,) * t.ndim] += 3.0 - 1.0j
+                ttno.tensors[node] = t
+            trace.append([how, node])
+        return {"kind": "ohist", "trace": trace, "probes": probes}
+    # [/str-C04] -----------------------------------------------------------------------------------
 
     @staticmethod
     def _preorder(ttn):
@@ -503,6 +673,23 @@ class C04(Prop):
             return f"raised {ob['exception']}"
         tol = lambda ref: 1e-9 * max(1.0, abs(ref))
         k = ob["kind"]
+        # [str-C04]
+        if k in ("hist", "ohist"):
+            for pr in ob["probes"]:
+                pre = "stale-centre: " if pr.get("stale") else ""
+                where = f"history {ob['trace']}, probe {pr['step']}"
+                if pr["q"] == "raised":
+                    return f"{pre}{where}: raised {pr['error']}"
+                if pr["q"] == "as_matrix()":
+                    if not pr["ok"]:
+                        return f"{where}: as_matrix() differs from the full contraction of the operator's current tensors (max deviation {pr['maxdev']})"
+                    if pr["order"] != pr["preorder"]:
+                        return f"{where}: contraction order {pr['order']} is not the pre-order {pr['preorder']}"
+                    continue
+                if abs(pr["value"] - pr["dense"]) > tol(pr["dense"]):
+                    return f"{pre}{where} (recorded centre {pr.get('centre')}): {pr['q']} = {pr['value']} != dense {pr['dense']}"
+            return None
+        # [/str-C04]
         if k == "norm":
             if "norm_error" in ob:
                 return f"norm() raised {ob['norm_error']}"
@@ -530,6 +717,20 @@ class C04(Prop):
             if "value_single" in ob and abs(ob["value_single"] - ob["dense_single"]) > tol(ob["dense_single"]):
                 return "single-site expectation value at the centre differs from dense"
         return None
+
+    # [str-C04]
+    def classify(self, case, what, known):
+        if isinstance(what, str) and what.startswith("stale-centre: ") and self.STALE_ID in known:
+            # only the quantities that go through the centre shortcut belong to the recorded finding
+            if "scalar_product(use_orthogonal_center=False)" in what or "raised" in what.split(": ", 2)[-1][:12]:
+                return None
+            import re
+            m = re.search(r"operator_expectation_value\(TensorProduct on (\[.*?\])\)", what)
+            if m and m.group(1).count("'") != 2:      # zero or several sites: no centre shortcut involved
+                return None
+            return self.STALE_ID
+        return None
+    # [/str-C04]
 
     def impl_wrapper(self):
         pass
